@@ -54,6 +54,9 @@ func (g *G) str(field string) string {
 func (g *G) enumVal(ed protoreflect.EnumDescriptor) protoreflect.EnumNumber {
 	vals := ed.Values()
 	if g.P.Hostile && g.R.Intn(6) == 0 {
+		if g.R.Intn(2) == 0 {
+			return protoreflect.EnumNumber(-1 - g.R.Intn(50)) // negative numbers survive protobuf decoding
+		}
 		return protoreflect.EnumNumber(1000 + g.R.Intn(50))
 	}
 	return vals.Get(g.R.Intn(vals.Len())).Number()
@@ -164,6 +167,18 @@ func (g *G) Node(id string) *sbom.Node {
 		g.Fill(n.ProtoReflect(), 0)
 	}
 	n.Id = id
+	if !g.P.Serialisable && g.R.Intn(3) == 0 {
+		// purl-shaped identifiers (some written with the extra slash that some producers emit)
+		if n.Identifiers == nil {
+			n.Identifiers = map[int32]string{}
+		}
+		typ := []string{"generic", "deb", "npm"}[g.R.Intn(3)]
+		sep := []string{"", "/"}[g.R.Intn(2)]
+		n.Identifiers[int32(sbom.SoftwareIdentifierType_PURL)] = fmt.Sprintf("pkg:%s%s/%s@1.%d", sep, typ, safeWords[g.R.Intn(len(safeWords))], g.R.Intn(9))
+		if n.Type == sbom.Node_FILE && g.R.Intn(2) == 0 {
+			n.Type = sbom.Node_PACKAGE
+		}
+	}
 	return n
 }
 
